@@ -10,7 +10,7 @@ CHECKS = {
  'C01': ('semantics', 'TLC enumerates rule shapes (MC_Grammar) + seeded abstract grammars -> fggs.sum_products x 4 semirings x 3 methods x 2 dtypes -> TLC judge (Trace_SumProduct) compares every tensor entry with the sum-product computed by definition (Semantics.tla) on exact carriers',
          'Every start-rule shape of a small universe (<=2-3 nodes, <=2-3 edges incl. nullary, repeated attachment, rule-less nonterminal, edgeless nodes/externals) exhaustively, plus seeded grammars with up to 4 nonterminals, zero and infinite weights; the oracle is an independent definitional evaluation in TLA+ with exact integer arithmetic, itself checked to be a fixed point of the equations (R3).',
          'Trusted: TLC, Semantics.tla, the projection of floats onto the integer carrier (exact for Real/Viterbi/Bool, an interval of naturals within 1e-4/1e-9 of exp(result) for Log). Weights are integers or infinite; float rounding on general weights is outside the model.', 'DESIGN.md#c01'),
- 'C02': ('recursive', 'recursive grammars on the dyadic grid built by reverse construction + seeded Bool / integer-log-weight grammars -> sum_products x 3 methods x tol x kmax (starved budgets included) -> TLC judge (Trace_Recursive): TLC PROVES the least fixed point (exact fixed point of the equations on the grid and Jacobian infinity-norm q<1, hence unique in the box) or computes it by Kleene stabilisation (Bool, max-plus); no warning => value within tol/(1-q); linear on non-linearly-recursive grammars raises ValueError',
+ 'C02': ('recursive', 'recursive grammars on the dyadic grid built by reverse construction + seeded Bool / integer-log-weight grammars -> sum_products x 3 methods x tol x kmax (starved budgets included) -> TLC judge (Trace_Recursive): TLC PROVES the least fixed point (exact fixed point of the equations on the grid and Jacobian infinity-norm q<1, hence unique in the box) or computes it by Kleene stabilisation (Bool, max-plus); no warning => value within tol/(1-q); linear on non-linearly-recursive grammars raises ValueError; the solver-driver event log of every call (hook) is validated against the state machine spec/Solver.tla (components are the SCCs in dependency order, each nonterminal solved once, warning iff the iteration budget was exhausted)',
          '120 (quick) / 1100 (thorough) recursive grammars (linear, non-linear, mutual recursion, tensor-valued nonterminals, weight-one cycles in max-plus) x {Real, Log} or {Bool, Viterbi} x 3 methods x tolerances 1e-2/1e-4/1e-6 x budgets kmax 0,1,2,3,10,1000 x 2 dtypes; the oracle is a machine-checked certificate, not a second numeric solver.',
          'Trusted: TLC, Semantics.tla (fixed-point carriers with exact / directed rounding, CertExact, CertQ), the Banach a-posteriori bound tol/(1-q)+2 grid units (Log: tolerance scaled by the largest value). Grammars whose certificate TLC cannot prove (q>=1) only get the sound lower-bound clause. "Error vanishes as tol does" is sampled at three tolerances.', 'DESIGN.md#c02'),
  'C03': ('gradients', 'seeded non-recursive grammars (natural weights) and recursive grammars on the dyadic grid -> backward through sum_product for Real and Log, 3 methods, cotangents on the start tensor -> TLC judge (Trace_Grad): formal derivative of the sum-product polynomial by dual numbers in Semantics.tla (exact for Real, exact rational w dZ/dw / Z for Log), enclosure of the derivative of the TLC-proved least fixed point for recursive grammars',
@@ -111,7 +111,7 @@ def build():
     return m
 
 
-HOOK_COMMITS = ['107ce0d']
+HOOK_COMMITS = ['107ce0d', 'e7a5070']
 
 if __name__ == '__main__':
     m = build()
